@@ -22,7 +22,7 @@ type Case struct {
 }
 
 // node kinds of the three names a, b, c in /w
-var linkTargets = []string{"a", "b", "c", "d/x", "d/l", "../w/b", "/w/a", "/w/c", "/w/d", ".", "..", "nonexist", "d"}
+var linkTargets = []string{"a", "b", "c", "d/x", "d/l", "../w/b", "/w/a", "/w/c", "/w/d", ".", "..", "nonexist", "d", "d/m", "d/n"}
 
 func kinds() []string {
 	k := []string{"F", "D", "N"}
@@ -33,9 +33,13 @@ func kinds() []string {
 }
 
 // build returns the ops that create the graph: /w/d is a fixed directory with
-// a file x and a link l -> ../a; a, b, c get the given kinds.
+// a file x and a link l -> ../a; a, b, c get the given kinds. /w/dd is a sibling
+// whose name has "d" as a strict prefix, reached from inside /w/d by the links
+// m -> ../dd/x and n -> /w/dd (substituting a link by a target that shares only a
+// string prefix with the directory it stands in).
 func build(ka, kb, kc string) []fsx.Op {
-	ops := []fsx.Op{{K: "Mkdir", P: "/w/d", Perm: 0o755}, {K: "WriteFile", P: "/w/d/x", Data: "DX", Perm: 0o644}, {K: "Symlink", P: "../a", P2: "/w/d/l"}}
+	ops := []fsx.Op{{K: "Mkdir", P: "/w/d", Perm: 0o755}, {K: "WriteFile", P: "/w/d/x", Data: "DX", Perm: 0o644}, {K: "Symlink", P: "../a", P2: "/w/d/l"},
+		{K: "Mkdir", P: "/w/dd", Perm: 0o755}, {K: "WriteFile", P: "/w/dd/x", Data: "DDX", Perm: 0o644}, {K: "Symlink", P: "../dd/x", P2: "/w/d/m"}, {K: "Symlink", P: "/w/dd", P2: "/w/d/n"}}
 	for i, k := range []string{ka, kb, kc} {
 		p := "/w/" + string(rune('a'+i))
 		switch {
@@ -71,7 +75,31 @@ func queries(n int) []string {
 var readCalls = []string{"Stat", "Lstat", "ReadFile", "ReadDir", "EvalSymlinks", "Readlink"}
 
 func mutCalls(p string, i int) []fsx.Op {
-	switch i % 9 {
+	switch i % 19 {
+	// the queried path as the destination (Rename, Link, Symlink, Mkdir and O_EXCL see the link
+	// itself; plain O_CREATE and WriteFile go through it)
+	case 9:
+		return []fsx.Op{{K: "Rename", P: "/w/d/x", P2: p}}
+	case 10:
+		return []fsx.Op{{K: "Link", P: "/w/d/x", P2: p}}
+	case 11:
+		return []fsx.Op{{K: "Symlink", P: "zz", P2: p}}
+	case 12:
+		return []fsx.Op{{K: "Mkdir", P: p, Perm: 0o755}}
+	case 13:
+		return []fsx.Op{{K: "Open", P: p, Flag: os.O_WRONLY | os.O_CREATE | os.O_EXCL, Perm: 0o644, H: 0}, {K: "FClose", H: 0}}
+	case 14:
+		return []fsx.Op{{K: "WriteFile", P: p, Data: "via", Perm: 0o644}}
+	case 15:
+		return []fsx.Op{{K: "RemoveAll", P: p}}
+	case 16:
+		return []fsx.Op{{K: "Rename", P: p, P2: p}}
+	case 17:
+		return []fsx.Op{{K: "Chown", P: p, Uid: 1001, Gid: 1002}}
+	case 18:
+		return []fsx.Op{{K: "Open", P: p, Flag: os.O_RDWR | os.O_CREATE, Perm: 0o644, H: 0}, {K: "FWrite", H: 0, Data: "c"}, {K: "FClose", H: 0}}
+	}
+	switch i % 19 {
 	case 0:
 		return []fsx.Op{{K: "Chmod", P: p, Perm: 0o600}}
 	case 1:
@@ -187,9 +215,14 @@ func TestCheck(t *testing.T) {
 						cs.Ops = append(cs.Ops, fsx.Op{K: call, P: q})
 					}
 				}
+				for _, q := range []string{"/w/d/m", "/w/d/n", "/w/d/n/x", "/w/a/m", "/w/a/n/x"} {
+					for _, call := range readCalls {
+						cs.Ops = append(cs.Ops, fsx.Op{K: call, P: q})
+					}
+				}
 				// one mutating call per graph on each of a few paths, chosen by position
-				for j, q := range []string{"/w/a", "/w/b", "/w/c", "/w/a/x", "/w/b/l", "/w/d/l"} {
-					cs.Ops = append(cs.Ops, mutCalls(q, idx+j)...)
+				for j, q := range []string{"/w/a", "/w/b", "/w/c", "/w/a/x", "/w/b/l", "/w/d/l", "/w/c", "/w/a", "/w/d/m"} {
+					cs.Ops = append(cs.Ops, mutCalls(q, idx*7+j*3)...)
 				}
 				if dev := runCase(c, kt, cs); dev != nil {
 					// keep the replay small: the build and the failing op
@@ -226,6 +259,8 @@ func TestCheck(t *testing.T) {
 			cs.Ops = append(cs.Ops, mutCalls("/w/l1", 7)...)
 			cs.Ops = append(cs.Ops, mutCalls("/w/l1", 8)...)
 			cs.Ops = append(cs.Ops, mutCalls("/w/l1", 0)...)
+			cs.Ops = append(cs.Ops, mutCalls("/w/l1", 14)...)
+			cs.Ops = append(cs.Ops, mutCalls("/w/l1", 9)...)
 			if dev := runCase(c, kt, cs); dev != nil {
 				dev.Fields["chain"] = chainClass(k)
 				c.Report(dev, cs)
@@ -234,7 +269,7 @@ func TestCheck(t *testing.T) {
 	}
 
 	// 3. random larger graphs and 4-component queries
-	names := []string{"a", "b", "c", "d", "x", "l"}
+	names := []string{"a", "b", "c", "d", "x", "l", "dd"}
 	c.Rapid("random", c.Pick(400, 12000), func(t *rapid.T) *vt.Failure {
 		cs := Case{Build: []fsx.Op{{K: "Mkdir", P: "/w/d", Perm: 0o755}, {K: "WriteFile", P: "/w/d/x", Data: "DX", Perm: 0o644}}}
 		dirs := []string{"/w", "/w/d"}
@@ -248,7 +283,7 @@ func TestCheck(t *testing.T) {
 				cs.Build = append(cs.Build, fsx.Op{K: "Mkdir", P: p, Perm: 0o755})
 				dirs = append(dirs, p)
 			default:
-				tg := rapid.SampledFrom([]string{"a", "b", "c", "d", "x", "l", "../a", "../b", "../d/x", "d/l", "/w/a", "/w/b", "/w/d", "/w/d/l", ".", "..", "nonexist", "../..", "a/x"}).Draw(t, "target")
+				tg := rapid.SampledFrom([]string{"a", "b", "c", "d", "x", "l", "../a", "../b", "../d/x", "d/l", "/w/a", "/w/b", "/w/d", "/w/d/l", ".", "..", "nonexist", "../..", "a/x", "../dd/x", "/w/dd", "dd/x", "../dd"}).Draw(t, "target")
 				cs.Build = append(cs.Build, fsx.Op{K: "Symlink", P: tg, P2: p})
 			}
 		}
@@ -277,7 +312,7 @@ func TestCheck(t *testing.T) {
 			}
 			var ops []fsx.Op
 			if rapid.IntRange(0, 3).Draw(t, "mut") == 0 {
-				ops = mutCalls(p, rapid.IntRange(0, 8).Draw(t, "which"))
+				ops = mutCalls(p, rapid.IntRange(0, 18).Draw(t, "which"))
 			} else {
 				ops = []fsx.Op{{K: rapid.SampledFrom(readCalls).Draw(t, "call"), P: p}}
 			}
